@@ -208,6 +208,12 @@ fn fixed_family() -> Vec<(Vec<&'static str>, E)> {
     const LE: &str = "leaf";
     vec![
         (vec![LE], Eps),
+        (vec!["star_of_epsilon"], Star(bx(Eps))),
+        (vec!["star_of_epsilon"], Star(bx(Cat(vec![])))),
+        (vec!["star_of_epsilon"], Star(bx(Repeat(bx(b(b"a")), 0)))),
+        (vec!["star_of_epsilon"], Cat(vec![b(b"a"), Star(bx(Eps)), b(b"b")])),
+        (vec!["star_of_epsilon"], Neg(bx(Star(bx(Eps))))),
+        (vec!["star_of_epsilon"], Star(bx(Star(bx(b(b"a")))))),
         (vec![UN], Any),
         (vec![UN], Cat(vec![Any])),
         (vec![UN], Union(vec![Any, a()])),
